@@ -326,11 +326,11 @@ func scenario(rec *mon.Recorder, c int) bool {
 			switch point {
 			case "conn.dial.connsLocked":
 				// a dial that missed the connection cache (first contact with a peer since it joined or
-				// re-joined) holds the connection lock: keep it there for up to 40 ms, or until a membership
+				// re-joined) holds the connection lock: keep it there for up to 220 ms, or until a membership
 				// change has taken the address lock
 				atomic.AddInt64(&dialsHolding, 1)
 				rec.Count("dials_held_with_the_connection_lock", 1)
-				limit := time.Duration(5+time.Now().UnixNano()%35) * time.Millisecond
+				limit := time.Duration(20+time.Now().UnixNano()%200) * time.Millisecond
 				for t0 := time.Now(); time.Since(t0) < limit; {
 					if atomic.LoadInt64(&changesHolding) > 0 {
 						rec.Count("dial_and_membership_change_each_holding_one_lock", 1)
@@ -461,7 +461,12 @@ func scenario(rec *mon.Recorder, c int) bool {
 				return
 			}
 			note("node 3 joined")
-			time.Sleep(time.Duration(50+rng.Intn(150)) * time.Millisecond)
+			if k%2 == 1 {
+				// removed again at once: the others' first dials to it are still under way
+				time.Sleep(time.Duration(rng.Intn(30)) * time.Millisecond)
+			} else {
+				time.Sleep(time.Duration(50+rng.Intn(150)) * time.Millisecond)
+			}
 			if !removals {
 				return
 			}
